@@ -28,7 +28,7 @@ ASSUMPTIONS = ["fewer than 2^15 messages are submitted per direction (exactly-on
 
 
 def route(case):
-    return "disp" if case.startswith(("disp", "sccrq", "full", "rws", "overlap", "stopccn")) else "chan"
+    return "disp" if case.startswith(("disp", "sccrq", "full", "rws", "overlap", "stopccn", "sccrqdup")) else "chan"
 
 
 ORIGINS = [0, 0, 1, 0x7ffd, 0x7ffe, 0x7fff, 0x8000, 0x8001, 0xfffc, 0xfffd, 0xfffe, 0xffff]
@@ -212,6 +212,7 @@ def gen_cases(rng, tier, budget):
     cases += gen_full(rng, 150 if quick else 2000)
     cases.append("overlap")
     cases.append("stopccn")
+    cases.append("sccrqdup")
     # advertised Receive Window Size through the real establishment path; exhaustive over the small grid
     for w in ["-", "0", "1", "2", "3", "4", "8", "16", "32"]:
         cases.append("rws lac %s 0 0" % w)
@@ -262,6 +263,10 @@ def monitor(case, line):
         return monitor_disp(case, line)
     if case.startswith("full"):
         return monitor_full(case, line)
+    if case.startswith("sccrqdup"):
+        if not line.endswith("tunnels=1"):
+            return "one SCCRQ received twice (retransmission) was handed to the protocol machine twice: %s" % line
+        return None
     if case.startswith("stopccn"):
         if line.endswith("acked=0"):
             return "an in-order StopCCN was accepted (Nr advanced) but no acknowledgement was ever sent: the runner is stopped with the ZLB timer armed"
@@ -417,6 +422,8 @@ def classify(case, impl, model):
 
 
 def signature(case, impl, models):
+    if case.startswith("sccrqdup"):
+        return "sccrq-retransmit-second-tunnel" if impl == models.get("defective") else "other:sccrqdup"
     if case.startswith("stopccn"):
         return "stopccn-never-acked" if impl == models.get("defective") else "other:stopccn"
     if case.startswith("overlap"):
